@@ -14,7 +14,7 @@ from __future__ import annotations
 
 import ast
 
-from engine.cfg import call_name, cfg_of
+from engine.cfg import call_name, cfg_of, expand_aliases
 from engine.errors import AnalysisError
 from engine.raises import _is_subclass, enclosing_catchers, raise_sites
 from engine.repo import walk_no_nested
@@ -185,7 +185,7 @@ def run(ctx):  # noqa: C901, PLR0912, PLR0915
            'SdcLocation.__init__ takes and stores exactly the elements of url_elements, each under its own name',
            fi=init, witness={'params': params, 'elements': elements})
     # provider query
-    qf = repo.func('sdc11073.provider.scopesfactory._query_from_location_state')
+    qf = expand_aliases(repo.func('sdc11073.provider.scopesfactory._query_from_location_state'))   # value = detail.X written out
     qmap = {}
     for n in walk_no_nested(qf.node):
         if isinstance(n, ast.Assign) and isinstance(n.targets[0], ast.Subscript) and \
@@ -224,9 +224,64 @@ def run(ctx):  # noqa: C901, PLR0912, PLR0915
     ctor = [c for c in calls_in(fs.node) if isinstance(c.func, ast.Name) and c.func.id == 'cls'
             and any(k.arg is None for k in c.keywords)]
     ok_keys = len(ctor) == 1 and all(
-        {'call:parse_qsl', 'attr:url_elements', 'call:get'} <= dfs.sources(k.value) for k in ctor[0].keywords if k.arg is None)
+        {'call:parse_qsl', 'attr:url_elements'} <= dfs.sources(k.value) for k in ctor[0].keywords if k.arg is None)
     ctx.ob('C16.R2', 'reader keys', ok_keys,
            'from_scope_string fills the constructor arguments from the query by element name', fi=fs)
+
+    # mk_scopes: the query of a location scope is computed from the state whose identification it is appended to - every
+    # definition of the query that reaches the scope string lies inside the loop over the associated states
+    mks = repo.func('sdc11073.provider.scopesfactory.mk_scopes')
+    gm = cfg_of(mks)
+    qcalls = gm.nodes_calling('_query_from_location_state')
+    ok = bool(qcalls)
+    wit = {}
+    for qn, qc in qcalls:
+        if not (qn.kind == 'stmt' and isinstance(qn.stmt, ast.Assign) and isinstance(qn.stmt.targets[0], ast.Name)
+                and qc.args and isinstance(qc.args[0], ast.Name)):
+            ok = False
+            continue
+        qvar, svar = qn.stmt.targets[0].id, qc.args[0].id
+        state_loops = [lp for lp in qn.loops if isinstance(lp, ast.For) and svar in {x.id for x in ast.walk(lp.target)
+                                                                                     if isinstance(x, ast.Name)}]
+        uses = [n for n in gm.real_nodes() if n is not qn and any(
+            isinstance(x, ast.JoinedStr) and any(isinstance(y, ast.Name) and y.id == qvar for y in ast.walk(x)) for x in n.walk())]
+        if not state_loops or not uses:
+            ok = False
+            continue
+        for u in uses:
+            defs = gm.reaching_defs(qvar).get(u.id, set())
+            outside = [d for d in defs if state_loops[0] not in d.loops]
+            wit[f'line {u.lineno}'] = [d.text()[:50] for d in defs]
+            ok = ok and bool(defs) and not outside
+    ctx.ob('C16.R2', 'mk_scopes: query of the same state', ok,
+           'the query part of a published location scope is computed for the state it is published for' if ok else
+           f'a definition of the query from outside the loop over the states reaches the scope string ({wit}): with two '
+           f'associated location states the second scope carries the query of the first', fi=mks, witness=wit)
+    # publish_service: what is stored and announced carries the scopes that were handed in - on every path (a re-used
+    # Service object keeps the scopes of the previous location)
+    pub = repo.func('sdc11073.wsdiscovery.wsdimpl.WSDiscovery.publish_service')
+    gp = cfg_of(pub)
+    sends = gp.nodes_calling('_send_hello')
+    sc_stores = [n for n in gp.real_nodes() if n.kind == 'stmt' and isinstance(n.stmt, ast.Assign) and
+                 isinstance(n.stmt.targets[0], ast.Attribute) and n.stmt.targets[0].attr == 'scopes' and
+                 unparse(n.stmt.value) == 'scopes']
+    ok = bool(sends)
+    for sn, sc in sends:
+        arg = sc.args[0] if sc.args else None
+        if not isinstance(arg, ast.Name):
+            ok = False
+            continue
+        for d in gp.reaching_defs(arg.id).get(sn.id, set()):
+            v = gp.def_value(d, arg.id) if d.kind == 'stmt' else None
+            built = isinstance(v, ast.Call) and call_name(v) == 'Service' and (
+                (len(v.args) > 1 and unparse(v.args[1]) == 'scopes') or
+                any(k.arg == 'scopes' and unparse(k.value) == 'scopes' for k in v.keywords))
+            if not built and gp.path_exists(d, sn, avoid=sc_stores):
+                ok = False
+    ctx.ob('C16.R2', 'publish_service announces the given scopes', ok,
+           'the Service that publish_service stores and announces is built with (or given) the scopes of this call' if ok else
+           'publish_service announces a Service object whose scopes are not those handed in (a kept object from the previous '
+           'publication): after set_location the Hello and all ProbeMatches still carry the old location scope', fi=pub)
 
     # ------------------------------------------------------------------ R3
     ss = repo.method(LOC, 'scope_string')
